@@ -425,4 +425,8 @@ def main(argv=None):
 
 
 if __name__ == "__main__":
+    if os.environ.get("PYTHONHASHSEED") != "0":
+        # reproducible runs: set/dict iteration order of strings must not depend on the process
+        os.environ["PYTHONHASHSEED"] = "0"
+        os.execv(sys.executable, [sys.executable, "-m", "pyvc.prop"] + sys.argv[1:])
     sys.exit(main())
